@@ -97,6 +97,9 @@ def run(ctx):
             ctx.add("oracle", "listwrapper-" + shape, "ir.modules assignment of a module already in the same list: " + "; ".join(bad[:2]),
                     {"shape": shape, "problems": bad})
     worldgen.compare(ctx, hists, "cache", "C03 uuid table correspondence")
+    import loadedworld
+    lh = loadedworld.stream(ctx, g, ctx.rng, 12 if ctx.quick else 300, 15 if ctx.quick else 30, "loaded")
+    ctx.cov["histories_continued_from_loaded_files"] = len(lh)
     ctx.cov["histories"] = nh
     ctx.cov["traces_validated_against_impl"] = nh
     ctx.cov["rule"] = ("random attach/detach/move histories of %d ops over 2 IRs (pool as C04), get_by_uuid observed for every pool UUID on every IR; "
